@@ -242,6 +242,7 @@ def expectedAlg (cfg : Cfg) (algs : List Int) : Option Int :=
 
 def c02_register (cfg : Cfg) (origin : RpId.Origin) (originStr : String) (req : RegisterReq) (mode : ClientDataMode)
     (draws : Option Draws) (pre : List PkSnap) (o : CObs RegOk) : Option String :=
+  let _ := mode
   let saves := o.trace.filter Auth.Spec.isEffect
   match o.res with
   | .panic => some "panic"
@@ -341,6 +342,119 @@ def c03_authenticate (uv : UvCfg) (origin : RpId.Origin) (originStr : String) (r
     if !P256.verifyDer p.key.x p.key.y (r.authData ++ hash) r.signature then some "signature-does-not-verify-over-authenticator-data-and-client-data-hash"
     else none
 
+/-! ### C09 — PRF through the client -/
+
+/-- the ASCII bytes of "WebAuthn PRF" followed by 0x00 -/
+def prfPrefix : Bytes := [0x57, 0x65, 0x62, 0x41, 0x75, 0x74, 0x68, 0x6e, 0x20, 0x50, 0x52, 0x46, 0x00]
+
+/-- the salt the statement specifies: SHA-256("WebAuthn PRF" ‖ 0x00 ‖ input), or the input itself when pre-hashed -/
+def saltOf (preHashed : Bool) (v : Bytes) : Bytes := if preHashed then v else Sha256.sha256 (prfPrefix ++ v)
+def saltsOf (preHashed : Bool) (v : PrfVals) : PrfValues := ⟨saltOf preHashed v.first, v.second.map (saltOf preHashed)⟩
+
+/-- the PRF request in effect: `prf`, else `prfAlreadyHashed` (flag = pre-hashed) -/
+def effectivePrf (ext : Option ExtIn) : Option (PrfInputs × Bool) :=
+  match ext.bind (·.prf) with
+  | some p => some (p, false)
+  | none => (ext.bind (·.prfAlreadyHashed)).map (fun p => (p, true))
+
+def badLengths (preHashed : Bool) (v : PrfVals) : Bool :=
+  preHashed && (v.first.length != 32 || (match v.second with | some s => s.length != 32 | none => false))
+
+/-- only `info` events: the authenticator was asked for its capabilities and nothing else -/
+def notInvoked (t : List EvObs) : Bool := t.all (fun ev => match ev with | .info => true | _ => false)
+
+/-- malformed at registration: per-credential inputs; pre-hashed inputs that are not 32 bytes -/
+def malformedReg (p : PrfInputs) (preHashed : Bool) : Bool :=
+  p.evalByCred.isSome || (match p.eval with | some v => badLengths preHashed v | none => false)
+
+/-- malformed at authentication: per-credential inputs without an allow list; empty, undecodable or
+unlisted credential keys; pre-hashed inputs that are not 32 bytes -/
+def malformedAuth (p : PrfInputs) (preHashed : Bool) (allow : Option (List Bytes)) : Bool :=
+  let allowL := allow.getD []
+  (match p.evalByCred with
+   | some l => (!l.isEmpty && allowL.isEmpty)
+       || l.any (fun kv => match Base64.decodeLenient kv.1 with
+            | none => true
+            | some k => k.isEmpty || !allowL.any (· == k) || badLengths preHashed kv.2)
+   | none => false)
+  || (match p.eval with | some v => badLengths preHashed v | none => false)
+
+def c09_register (cfg : Cfg) (req : RegisterReq) (pre : List PkSnap) (o : CObs RegOk) : Option String :=
+  let eff := effectivePrf req.ext
+  match o.res with
+  | .panic => some "panic"
+  | .err name =>
+    match cfg.hmac, eff with
+    | some _, some (p, ph) =>
+      if malformedReg p ph then
+        (if !(name == "NotSupportedError" || name == "SyntaxError" || name == "ValidationError") then some "malformed-prf-request-not-rejected-as-such"
+         else if !notInvoked o.trace then some "malformed-prf-request-reached-the-authenticator" else none)
+      else none
+    | _, _ => none
+  | .ok r =>
+    let stored := ((o.store.filter (fun p => p.credId == r.rawId)).head?).bind (·.hmac)
+    let _ := pre
+    match cfg.hmac with
+    | none => if r.prf.isSome then some "prf-output-without-capability" else if stored.isSome then some "secret-stored-without-capability" else none
+    | some h =>
+      match eff with
+      | none => if r.prf.isSome then some "prf-output-without-request" else if stored.isSome then some "secret-stored-without-request" else none
+      | some (p, ph) =>
+        if malformedReg p ph then some "malformed-prf-request-accepted" else
+        match r.prf with
+        | none => some "prf-requested-but-no-output"
+        | some out =>
+          if out.enabled != stored.isSome then some "enabled-reported-not-iff-secrets-stored" else
+          let verified := Auth.Spec.uvPerformed r.authData
+          match out.results with
+          | none =>
+            (match stored, p.eval with
+             | some sec, some _ => if h.onMake && sec.withoutUv.isSome then some "no-results-although-evaluation-at-creation-is-on" else none
+             | _, _ => none)
+          | some res =>
+            if !h.onMake then some "results-although-evaluation-at-creation-is-off" else
+            match stored, p.eval with
+            | some sec, some v =>
+              if (Auth.Spec.secretsAtCreation sec verified).any (fun k => Auth.Spec.prfMatches k (saltsOf ph v) res) then none
+              else some "prf-result-is-not-the-hmac-of-the-specified-salt-under-a-permitted-secret"
+            | _, _ => some "results-without-secret-or-input"
+
+def c09_authenticate (cfg : Cfg) (req : AuthReq) (pre : List Passkey) (o : CObs AuthOk) : Option String :=
+  let eff := effectivePrf req.ext
+  match o.res with
+  | .panic => some "panic"
+  | .err name =>
+    match cfg.hmac, eff with
+    | some _, some (p, ph) =>
+      if malformedAuth p ph req.allow then
+        (if !(name == "NotSupportedError" || name == "SyntaxError" || name == "ValidationError") then some "malformed-prf-request-not-rejected-as-such"
+         else if !notInvoked o.trace then some "malformed-prf-request-reached-the-authenticator" else none)
+      else none
+    | _, _ => none
+  | .ok r =>
+    match cfg.hmac with
+    | none => if r.prf.isSome then some "prf-output-without-capability" else none
+    | some _ =>
+      match eff with
+      | none => if r.prf.isSome then some "prf-output-without-request" else none
+      | some (p, ph) =>
+        if malformedAuth p ph req.allow then some "malformed-prf-request-accepted" else
+        -- inputs listed under the used credential's id take precedence over the default inputs
+        let listed := (p.evalByCred.getD []).find? (fun kv => Base64.decodeLenient kv.1 == some r.rawId)
+        let chosen : Option PrfVals := match listed with | some kv => some kv.2 | none => p.eval
+        match chosen with
+        | none => if r.prf.isSome then some "prf-output-without-input" else none
+        | some v =>
+          match (pre.find? (fun c => c.credId == r.rawId)).bind (·.hmac) with
+          | none => some "assertion-succeeded-although-the-credential-has-no-secret"
+          | some sec =>
+            match Auth.Spec.secretFor sec (Auth.Spec.uvPerformed r.authData) with
+            | none => some "assertion-succeeded-without-an-eligible-secret"
+            | some k =>
+              match r.prf with
+              | none => some "prf-requested-but-no-output"
+              | some out => if Auth.Spec.prfMatches k (saltsOf ph v) out then none else some "prf-result-is-not-the-hmac-of-the-specified-salt-under-the-right-secret"
+
 def verdictReg (prop : String) (cfg : Cfg) (kind : StoreKind) (uv : UvCfg) (origin : RpId.Origin) (originStr : String)
     (req : RegisterReq) (mode : ClientDataMode) (draws : Option Draws) (pre : List PkSnap) (impl : String) : String :=
   match parseRegObs impl with
@@ -348,15 +462,17 @@ def verdictReg (prop : String) (cfg : Cfg) (kind : StoreKind) (uv : UvCfg) (orig
   | some o =>
     if prop = "C11" then (match c11_register kind uv req o with | none => "ok" | some f => "fail:" ++ f)
     else if prop = "C02" then (match c02_register cfg origin originStr req mode draws pre o with | none => "ok" | some f => "fail:" ++ f)
+    else if prop = "C09" then (match c09_register cfg req pre o with | none => "ok" | some f => "fail:" ++ f)
     else "na"
 
-def verdictAuth (prop : String) (_cfg : Cfg) (_kind : StoreKind) (uv : UvCfg) (origin : RpId.Origin) (originStr : String)
+def verdictAuth (prop : String) (cfg : Cfg) (_kind : StoreKind) (uv : UvCfg) (origin : RpId.Origin) (originStr : String)
     (req : AuthReq) (mode : ClientDataMode) (pre : List PkSnap) (preItems : List Passkey) (impl : String) : String :=
   match parseAuthObs impl with
   | none => "fail:unparsable-or-crashed"
   | some o =>
     if prop = "C11" then (match c11_assert pre o with | none => "ok" | some f => "fail:" ++ f)
     else if prop = "C03" then (match c03_authenticate uv origin originStr req mode preItems o with | none => "ok" | some f => "fail:" ++ f)
+    else if prop = "C09" then (match c09_authenticate cfg req preItems o with | none => "ok" | some f => "fail:" ++ f)
     else "na"
 
 end PasskeyVerif.Spec.Client
